@@ -172,9 +172,15 @@ class KernelObserver:
     not changed; the record lets a check tell 'the repository reacted to a broken kernel result as documented'
     (PreconditionerValueError) from 'the repository produced non-finite values itself'."""
 
-    def __init__(self):
+    def __init__(self, measure_orth=False):
         self.nonfinite_from_finite = 0
         self.calls = 0
+        # optional: loss of orthogonality ||V^T V - I||_max of the returned eigenvectors (observed: MKL dsyevd returns 2e-11
+        # instead of ~1e-15 for a float64 matrix with two 48-fold eigenvalue clusters); `last_orth_defect` is that of the
+        # latest call, to be added to an accuracy bound as the third-party kernel's own measured error
+        self.measure_orth = measure_orth
+        self.last_orth_defect = 0.0
+        self.max_orth_defect = 0.0
 
     def __enter__(self):
         import torch
@@ -189,6 +195,10 @@ class KernelObserver:
             try:
                 if bool(torch.isfinite(A).all()) and not (bool(torch.isfinite(out[0]).all()) and bool(torch.isfinite(out[1]).all())):
                     obs.nonfinite_from_finite += 1
+                if obs.measure_orth and out[1].dim() == 2 and bool(torch.isfinite(out[1]).all()):
+                    V = out[1].detach().to(torch.float64)
+                    obs.last_orth_defect = float((V.T @ V - torch.eye(V.shape[0], dtype=torch.float64)).abs().max())
+                    obs.max_orth_defect = max(obs.max_orth_defect, obs.last_orth_defect)
             except Exception:  # noqa
                 pass
             return out
